@@ -130,17 +130,21 @@ def Compactor.ensureLoop (T : Tun) (F : SecFns ρ) : Nat → Compactor ρ → Co
     let r := c.ensureEnough T F
     if r.2 then Compactor.ensureLoop T F fuel r.1 else c
 
+/-- `state_ |= other.state_` -/
+def Compactor.orState (c o : Compactor ρ) : Compactor ρ := { c with state := c.state ||| o.state }
+
+/-- the buffer as `sort()` leaves it -/
+def Compactor.sortedItems (c : Compactor ρ) : List Int := if c.sorted then c.items else sortInts c.items
+
+/-- the two sorted runs after `std::inplace_merge` (HRA: the other's items are placed in front of the own ones) -/
+def mergeItems (hra : Bool) (mine theirs : List Int) : List Int :=
+  if mine.isEmpty then theirs else if hra then mergeRuns theirs mine else mergeRuns mine theirs
+
 /-- `merge(other)` (same `lg_weight_`; the caller checks): OR of the states, enough sections, both runs sorted, merged.
 The own `coin_` is kept (this is what the code does). -/
 def Compactor.merge (T : Tun) (F : SecFns ρ) (c o : Compactor ρ) : Compactor ρ :=
-  let c1 := { c with state := c.state ||| o.state }
-  let c2 := Compactor.ensureLoop T F (c1.state + 2) c1
-  let mine := if c2.sorted then c2.items else sortInts c2.items
-  let theirs := if o.sorted then o.items else sortInts o.items
-  let merged :=
-    if mine.isEmpty then theirs
-    else if c2.hra then mergeRuns theirs mine else mergeRuns mine theirs
-  { c2 with items := merged, sorted := true, entered := o.entered ++ c2.entered }
+  let c2 := Compactor.ensureLoop T F ((c.orState o).state + 2) (c.orState o)
+  { c2 with items := mergeItems c2.hra c2.sortedItems o.sortedItems, sorted := true, entered := o.entered ++ c2.entered }
 
 /-- number of sections to compact -/
 def Compactor.secsToCompact (c : Compactor ρ) : Nat := min (trailingOnes c.state + 1) c.numSections
